@@ -149,6 +149,73 @@ pub fn check(_ctx: &Ctx, input: &Input) -> CaseResult {
     let script = exec::gen_script(&im, &mut ch, 12);
     let want_import = !da.imp_funcs.is_empty() && (ch.bool() || da.exports.iter().all(|e| e.kind != ExtKind::Func));
 
+    // ---- (c) replacements that do not apply are refused and change nothing:
+    // replace_imported_func on a local function, replace_exported_func on a
+    // function that is not exported or on a re-exported import
+    {
+        let n_imp = da.imp_funcs.len() as u32;
+        let exported: std::collections::HashSet<u32> = da.exports.iter().filter(|e| e.kind == ExtKind::Func).map(|e| e.index).collect();
+        let local_target = (n_imp..da.n_funcs()).next();
+        let unexported = (0..da.n_funcs()).find(|f| !exported.contains(f));
+        let reexported_import = (0..n_imp).find(|f| exported.contains(f));
+        let targets = [local_target, unexported, reexported_import];
+        let ids = std::sync::Arc::new(std::sync::Mutex::new(Vec::new()));
+        let ids2 = ids.clone();
+        let mut cfg = wal::Cfg::plain().to_config();
+        cfg.on_parse(move |_m, map| {
+            let mut v = Vec::new();
+            for t in targets {
+                v.push(match t {
+                    Some(i) => Some(map.get_func(i)?),
+                    None => None,
+                });
+            }
+            *ids2.lock().unwrap() = v;
+            Ok(())
+        });
+        if let (Ok(Ok(mut m)), Ok(Some(base))) = (wal::parse(&bytes, &cfg), wal::roundtrip(&bytes, wal::Cfg::plain(), false)) {
+            let v = ids.lock().unwrap().clone();
+            let mut refused = 0;
+            for (k, id) in v.iter().enumerate() {
+                let id = match id {
+                    Some(i) => *i,
+                    None => continue,
+                };
+                let what = ["replace_imported_func on a local function", "replace_exported_func on a function that is not exported", "replace_exported_func on a re-exported import"][k];
+                let r = guard("replace-refused", || {
+                    if k == 0 {
+                        m.replace_imported_func(id, |(b, _)| {
+                            b.unreachable();
+                        })
+                        .is_ok()
+                    } else {
+                        m.replace_exported_func(id, |(b, _)| {
+                            b.unreachable();
+                        })
+                        .is_ok()
+                    }
+                })?;
+                if r {
+                    return Err(Failure::new(
+                        "inapplicable-replacement-accepted",
+                        format!("{} (function index {:?}) returned Ok [{}]", what, targets[k], origin),
+                    ));
+                }
+                refused += 1;
+            }
+            if refused > 0 {
+                let after = wal::emit(&mut m)?;
+                if after != base {
+                    return Err(Failure::new(
+                        "refused-replacement-changed-the-module",
+                        format!("after {} refused replacement(s) the module emits {} bytes, {} before [{}]", refused, after.len(), base.len(), origin),
+                    ));
+                }
+                out.label("refused-replacements-change-nothing");
+            }
+        }
+    }
+
     if want_import {
         // ---- (a) replace an imported function ----
         let pos = ch.below(da.imp_funcs.len()) as u32;
